@@ -13,6 +13,7 @@ import (
 	"os"
 	"sort"
 	"strings"
+	"sync"
 	"testing"
 	"testing/synctest"
 	"time"
@@ -27,6 +28,8 @@ type vdStep struct {
 	Kind string  `json:"kind"`
 	S    string  `json:"s"`
 	On   bool    `json:"on"`
+	R    string  `json:"r"`
+	Op   string  `json:"op"`
 }
 
 type vdSched struct {
@@ -39,7 +42,24 @@ type vdCall struct {
 	Op  string  `json:"op"`
 	K   string  `json:"k"`
 	Rng []int64 `json:"rng"`
+	Rd  string  `json:"rd"` // reader the call belongs to ("" = a complete, non-overlapping operation)
 }
+
+// vdReaderKey carries the id of an overlapping reader in the context of its client call.
+type vdReaderKey struct{}
+
+func vdReader(ctx context.Context) string {
+	r, _ := ctx.Value(vdReaderKey{}).(string)
+	return r
+}
+
+// vdShared is what the two fakes share: the call log and the parking place of overlapping primary GETs.
+type vdShared struct {
+	mu      sync.Mutex
+	waiters map[string]chan struct{} // reader id -> gate its primary GET is parked on
+}
+
+var vdMu = &vdShared{waiters: map[string]chan struct{}{}}
 
 var vdKeyNum = map[string]int{"k1": 1, "k2": 2, "k3": 3}
 
@@ -121,12 +141,27 @@ func (b *vdBackend) gate(ctx context.Context, key string) error {
 	return nil
 }
 
-func (b *vdBackend) rec(op, key string, rng *storage.ByteRange) {
-	c := vdCall{B: b.name, Op: op, K: vdModelKey(key), Rng: []int64{}}
+func (b *vdBackend) rec(ctx context.Context, op, key string, rng *storage.ByteRange) {
+	vdMu.mu.Lock()
+	defer vdMu.mu.Unlock()
+	c := vdCall{B: b.name, Op: op, K: vdModelKey(key), Rng: []int64{}, Rd: vdReader(ctx)}
 	if rng != nil {
 		c.Rng = []int64{rng.Start, rng.End}
 	}
 	*b.log = append(*b.log, c)
+}
+
+// park holds the primary GET of an overlapping reader until the harness lets it return.
+func (b *vdBackend) park(ctx context.Context) {
+	r := vdReader(ctx)
+	if b.name != "P" || r == "" {
+		return
+	}
+	ch := make(chan struct{})
+	vdMu.mu.Lock()
+	vdMu.waiters[r] = ch
+	vdMu.mu.Unlock()
+	<-ch
 }
 
 func (b *vdBackend) down(key string) bool { return b.failAll || b.mode[key] != "" }
@@ -185,7 +220,7 @@ func (b *vdBackend) peekList(prefix string) ([]storage.S3Object, error) {
 }
 
 func (b *vdBackend) UploadSegment(ctx context.Context, key string, body []byte) error {
-	b.rec("UploadSegment", key, nil)
+	b.rec(ctx, "UploadSegment", key, nil)
 	if err := b.gate(ctx, key); err != nil {
 		return err
 	}
@@ -194,7 +229,7 @@ func (b *vdBackend) UploadSegment(ctx context.Context, key string, body []byte) 
 }
 
 func (b *vdBackend) UploadIndex(ctx context.Context, key string, body []byte) error {
-	b.rec("UploadIndex", key, nil)
+	b.rec(ctx, "UploadIndex", key, nil)
 	if err := b.gate(ctx, key); err != nil {
 		return err
 	}
@@ -203,7 +238,7 @@ func (b *vdBackend) UploadIndex(ctx context.Context, key string, body []byte) er
 }
 
 func (b *vdBackend) DeleteSegment(ctx context.Context, key string) error {
-	b.rec("DeleteSegment", key, nil)
+	b.rec(ctx, "DeleteSegment", key, nil)
 	if err := b.gate(ctx, key); err != nil {
 		return err
 	}
@@ -212,7 +247,7 @@ func (b *vdBackend) DeleteSegment(ctx context.Context, key string) error {
 }
 
 func (b *vdBackend) DeleteIndex(ctx context.Context, key string) error {
-	b.rec("DeleteIndex", key, nil)
+	b.rec(ctx, "DeleteIndex", key, nil)
 	if err := b.gate(ctx, key); err != nil {
 		return err
 	}
@@ -221,7 +256,8 @@ func (b *vdBackend) DeleteIndex(ctx context.Context, key string) error {
 }
 
 func (b *vdBackend) DownloadSegment(ctx context.Context, key string, rng *storage.ByteRange) ([]byte, error) {
-	b.rec("DownloadSegment", key, rng)
+	b.rec(ctx, "DownloadSegment", key, rng)
+	b.park(ctx)
 	if err := b.gate(ctx, key); err != nil {
 		return nil, err
 	}
@@ -229,7 +265,8 @@ func (b *vdBackend) DownloadSegment(ctx context.Context, key string, rng *storag
 }
 
 func (b *vdBackend) DownloadIndex(ctx context.Context, key string) ([]byte, error) {
-	b.rec("DownloadIndex", key, nil)
+	b.rec(ctx, "DownloadIndex", key, nil)
+	b.park(ctx)
 	if err := b.gate(ctx, key); err != nil {
 		return nil, err
 	}
@@ -237,7 +274,7 @@ func (b *vdBackend) DownloadIndex(ctx context.Context, key string) ([]byte, erro
 }
 
 func (b *vdBackend) ListSegments(ctx context.Context, prefix string) ([]storage.S3Object, error) {
-	b.rec("ListSegments", prefix, nil)
+	b.rec(ctx, "ListSegments", prefix, nil)
 	if err := ctx.Err(); err != nil {
 		return nil, err
 	}
@@ -245,7 +282,7 @@ func (b *vdBackend) ListSegments(ctx context.Context, prefix string) ([]storage.
 }
 
 func (b *vdBackend) EnsureBucket(ctx context.Context) error {
-	b.rec("EnsureBucket", "", nil)
+	b.rec(ctx, "EnsureBucket", "", nil)
 	if err := ctx.Err(); err != nil {
 		return err
 	}
@@ -345,7 +382,179 @@ func vdRun(t *testing.T, n int, s vdSched, emit func(map[string]any)) {
 			return map[string]any{"prim": map[string]any{"seg": ps, "idx": pi}, "primFail": prim.failAll, "rep": rs}
 		}
 		emit(map[string]any{"ev": "Reset", "len": s.Len, "sched": n})
+		vdMu.mu.Lock()
+		vdMu.waiters = map[string]chan struct{}{}
+		vdMu.mu.Unlock()
+		// ---- overlapping reads: a reader runs its client call in its own goroutine; its primary GET parks in the fake
+		type vdPending struct {
+			op, k   string
+			rng     *storage.ByteRange
+			rngArr  []int64
+			cancel  context.CancelFunc
+			done    bool
+			got     []byte
+			err     error
+			alive   bool
+			emitted bool
+		}
+		pending := map[string]*vdPending{}
+		readerCalls := func(r string) []vdCall {
+			vdMu.mu.Lock()
+			defer vdMu.mu.Unlock()
+			out := []vdCall{}
+			for _, c := range calls {
+				if c.Rd == r {
+					out = append(out, c)
+				}
+			}
+			return out
+		}
+		emitDone := func(r string, mode string) {
+			p := pending[r]
+			kind := "seg"
+			if p.op == "DownloadIndex" {
+				kind = "idx"
+			}
+			key := vdObjKey(kind, p.k)
+			var want []byte
+			var werr error
+			if kind == "seg" {
+				want, werr = prim.peekSeg(key, p.rng)
+			} else {
+				want, werr = prim.peekIdx(key)
+			}
+			once, oerr := vdSlice(vdContent(kind, p.k, s.Len), p.rng)
+			bytesGot := vdInts(p.got)
+			if p.err != nil {
+				bytesGot = []int{}
+			}
+			emit(map[string]any{"ev": p.op, "k": p.k, "rng": p.rngArr, "r": r, "mode": mode, "ok": p.err == nil, "bytes": bytesGot, "listed": []string{},
+				"want": map[string]any{"ok": werr == nil, "bytes": vdInts(want), "listed": []string{}},
+				"once": map[string]any{"ok": oerr == nil, "bytes": vdInts(once)}, "alive": p.alive, "calls": readerCalls(r), "st": project()})
+			delete(pending, r)
+		}
+		finished := func() []string {
+			vdMu.mu.Lock()
+			defer vdMu.mu.Unlock()
+			out := []string{}
+			for r, p := range pending {
+				if p.done {
+					out = append(out, r)
+				}
+			}
+			sort.Strings(out)
+			return out
+		}
+		release := func(r string) {
+			vdMu.mu.Lock()
+			ch := vdMu.waiters[r]
+			delete(vdMu.waiters, r)
+			vdMu.mu.Unlock()
+			if ch == nil {
+				return
+			}
+			close(ch)
+			synctest.Wait()
+			fin := finished()
+			for _, q := range fin { // the reader whose GET returned first, then readers that shared its result
+				if q == r {
+					emitDone(q, "ret")
+				}
+			}
+			for _, q := range fin {
+				if q != r {
+					emitDone(q, "join")
+				}
+			}
+		}
+		drain := func() {
+			for _, r := range []string{"A", "B"} {
+				if _, ok := pending[r]; ok {
+					release(r)
+				}
+			}
+			if len(pending) != 0 {
+				t.Fatalf("schedule %d: readers still pending after releasing every parked primary GET", n)
+			}
+		}
 		for _, st := range s.Steps {
+			switch st.A {
+			case "ReadStart":
+				if _, busy := pending[st.R]; busy {
+					drain() // cannot happen on a tree the model describes; keep going rather than dead-locking the bubble
+				}
+				p := &vdPending{op: st.Op, k: st.K, rngArr: []int64{}}
+				if len(st.Rng) == 2 {
+					p.rng = &storage.ByteRange{Start: st.Rng[0], End: st.Rng[1]}
+					p.rngArr = st.Rng
+				}
+				vdMu.mu.Lock() // forget the calls of this reader's previous read
+				kept := calls[:0]
+				for _, c := range calls {
+					if c.Rd != st.R {
+						kept = append(kept, c)
+					}
+				}
+				calls = kept
+				vdMu.mu.Unlock()
+				base, cancel := context.WithTimeout(context.Background(), vdCallerTimeout)
+				ctx := context.WithValue(base, vdReaderKey{}, st.R)
+				p.cancel = cancel
+				pending[st.R] = p
+				kind := "seg"
+				if st.Op == "DownloadIndex" {
+					kind = "idx"
+				}
+				key := vdObjKey(kind, st.K)
+				go func() {
+					var got []byte
+					var err error
+					if kind == "seg" {
+						got, err = client.DownloadSegment(ctx, key, p.rng)
+					} else {
+						got, err = client.DownloadIndex(ctx, key)
+					}
+					alive := ctx.Err() == nil
+					cancel()
+					vdMu.mu.Lock()
+					p.got, p.err, p.alive, p.done = got, err, alive, true
+					vdMu.mu.Unlock()
+				}()
+				synctest.Wait()
+				vdMu.mu.Lock()
+				done := p.done
+				_, atGate := vdMu.waiters[st.R]
+				vdMu.mu.Unlock()
+				if done {
+					emitDone(st.R, "start")
+				} else {
+					parked := "flight"
+					if atGate {
+						parked = "gate"
+					}
+					emit(map[string]any{"ev": "ReadPark", "r": st.R, "op": st.Op, "k": st.K, "rng": p.rngArr, "parked": parked, "st": project()})
+				}
+				continue
+			case "Return", "JoinFinish":
+				// adaptive: on a tree without coalescing the "joined" reader is parked in its own primary GET
+				if p, ok := pending[st.R]; ok {
+					vdMu.mu.Lock()
+					_, atGate := vdMu.waiters[st.R]
+					vdMu.mu.Unlock()
+					if atGate {
+						release(st.R)
+					} else {
+						// the reader is not parked in a primary GET of its own: it waits for another reader's GET of the same object
+						for _, q := range []string{"A", "B"} {
+							if lp, ok2 := pending[q]; ok2 && q != st.R && lp.op == p.op && lp.k == p.k {
+								release(q)
+							}
+						}
+					}
+				}
+				continue
+			}
+			drain()
 			calls = calls[:0]
 			rngArr := []int64{}
 			var rng *storage.ByteRange
@@ -353,7 +562,7 @@ func vdRun(t *testing.T, n int, s vdSched, emit func(map[string]any)) {
 				rng = &storage.ByteRange{Start: st.Rng[0], End: st.Rng[1]}
 				rngArr = st.Rng
 			}
-			line := map[string]any{"ev": st.A, "k": st.K, "rng": rngArr}
+			line := map[string]any{"ev": st.A, "k": st.K, "rng": rngArr, "r": "", "mode": "seq"}
 			// every client call is made with a caller deadline; alive = the caller's context outlived the call
 			ctx, cancel := context.WithTimeout(context.Background(), vdCallerTimeout)
 			noRes := map[string]any{"ok": false, "bytes": []int{}}
@@ -443,5 +652,6 @@ func vdRun(t *testing.T, n int, s vdSched, emit func(map[string]any)) {
 			line["st"] = project()
 			emit(line)
 		}
+		drain()
 	}
 }
